@@ -22,6 +22,7 @@ pub fn caps_for_kind(kind: u8) -> &'static [usize] {
         7 => &[0, 1, 2],
         8 => &[0, 1, 2, 3, 4, 6, 9],
         10 => &[0, 1, 2],
+        11 => &[0, 1, 2, 3, 4, 6],
         _ => &[0, 1, 2, 3, 4, 6],
     }
 }
